@@ -195,8 +195,17 @@ class Agent(dbus.service.Object):
             self.stop()
             return True
 
-        for hdl in self._handlers:
-            hdl.terminate()
+        for hdl in tuple(self._handlers):
+            try:
+                hdl.terminate()
+            except RuntimeError as err:
+                # Either already terminating or there is no session yet
+                self._logger.info('Not terminating "%s": %s', hdl.object_path, err)
+                if not hdl._in_term:
+                    hdl.close()
+        if not self._handlers:
+            # Stopped by the last close
+            return True
         self._logger.info('Waiting on sessions to terminate')
         return False
 
